@@ -208,3 +208,64 @@ func hC16seg(delta int) {
 }
 
 func H_C16_seg() { hC16seg(vCase()%3 - 1) }
+
+// sizeOnlyFile: a segment file that records where the last write went instead of
+// storing it (the append offset of a multi-GiB segment is symbolic).
+type sizeOnlyFile struct {
+	fs.File
+	lastOff int64
+	lastLen int
+	writes  int
+}
+
+func (f *sizeOnlyFile) WriteAt(p []byte, off int64) (int, error) {
+	f.lastOff, f.lastLen = off, len(p)
+	f.writes++
+	return len(p), nil
+}
+func (f *sizeOnlyFile) Sync() error  { return nil }
+func (f *sizeOnlyFile) Close() error { return nil }
+
+// H_C16_fit: the "does the record fit" decision of datalog.writeRecord for a
+// current segment of ANY size up to the limit (symbolic 64-bit size S, symbolic
+// 32-bit maxSegmentSize M with S <= M, also the default M = MaxUint32): the
+// record is appended at S only if S+len <= M, its offset is representable in the
+// slot's 32 bits, and otherwise the log rolls over to a fresh segment where the
+// record starts right after the header.
+func H_C16_fit() {
+	opts := (&Options{FileSystem: fs.Mem}).copyWithDefaults("c16fit")
+	key := vBytes("key", 3)
+	val := vBytes("val", 5)
+	data := encodePutRecord(key, val)
+	L := int64(len(data))
+	M := vU32("maxSegmentSize")
+	if vCase()%2 == 1 {
+		M = 0xFFFFFFFF // the default
+	}
+	S := int64(vU64("size"))
+	vAssume(int64(M) >= int64(headerSize)+L)
+	vAssume(S >= int64(headerSize) && S <= int64(M))
+	opts.maxSegmentSize = M
+	stub := &sizeOnlyFile{}
+	seg := &segment{file: &file{File: stub, size: S}, id: 0, sequenceID: 1, name: segmentName(0, 1), meta: &segmentMeta{}}
+	dl := &datalog{opts: opts, curSeg: seg, maxSequenceID: 1}
+	dl.segments[0] = seg
+	id, off, err := dl.writeRecord(data, recordTypePut)
+	vAssert(err == nil, "C16.fit.err")
+	if err != nil {
+		return
+	}
+	if id == 0 {
+		vCover("C16.fit.appended-to-current-segment")
+		vAssert(S+L <= int64(M), "C16.fit.record-appended-beyond-maxSegmentSize")
+		vAssert(int64(off) == S && stub.lastOff == S, "C16.fit.slot-offset-is-the-append-offset")
+		vAssert(seg.size == S+L, "C16.fit.size-advanced")
+	} else {
+		vCover("C16.fit.rolled-over")
+		vAssert(S+L > int64(M), "C16.fit.rolled-over-although-the-record-fits")
+		vAssert(stub.writes == 0, "C16.fit.full-segment-untouched")
+		vAssert(int64(off) == int64(headerSize), "C16.fit.first-record-of-new-segment")
+		vAssert(seg.meta.Full, "C16.fit.old-segment-sealed")
+	}
+	vCover("C16.fit.done")
+}
